@@ -34,6 +34,11 @@ structure DSt where
   sops : List (Nat × String × Int) := []
   sparked : List (String × Nat) := []
   snext : Nat := 10
+  /-- key "p" (field patches): its own register; fact: PatchFields decides from nothing it read before the guard -/
+  sp : Hv.Lin.St := Hv.Lin.init 0
+  patchGuarded : Bool := true
+  /-- calls whose decision was taken before the guard (they run with the defective body shape) -/
+  searly : List Nat := []
 
 def tidOf (n : String) : Option Nat :=
   match n with | "A" => some 1 | "B" => some 2 | "C" => some 3 | "D" => some 4 | _ => none
@@ -143,31 +148,46 @@ def sop (d : DSt) : Nat → Int → Int := fun t v =>
   | some (_, "seta", a) => if v == 0 then a else v
   | some (_, "setx", a) => if v == 0 then 0 else a
   | some (_, "del", _) => 0
+  | some (_, "pdel", _) => 0
+  | some (_, "pinc", _) => v + 1
   | _ => v
 
-def scfg (d : DSt) : Hv.Lin.Cfg :=
+def isP (kind : String) : Bool := kind == "pinc" || kind == "pdel"
+
+def scfg (d : DSt) (t : Nat) : Hv.Lin.Cfg :=
   { guard := { resetsIdOnEmpty := d.resets }, releaseInSave := false,
-    shape := if d.setUnderGuard then .guarded else .readBeforeAcquire }
+    shape := if d.searly.contains t then .readBeforeAcquire else .guarded }
+
+def kindOf (d : DSt) (t : Nat) : String := ((d.sops.find? (fun e => e.1 == t)).map (fun e => e.2.1)).getD ""
+
+def reg (d : DSt) (t : Nat) : Hv.Lin.St := if isP (kindOf d t) then d.sp else d.s
+def setReg (d : DSt) (t : Nat) (s' : Hv.Lin.St) : DSt := if isP (kindOf d t) then { d with sp := s' } else { d with s := s' }
 
 def srun (fuel : Nat) (d : DSt) (t : Nat) : DSt :=
   match fuel with
   | 0 => d
   | fuel + 1 =>
-    if (d.s.th t).pc ≥ 5 then d else
-    match Hv.Lin.step (scfg d) (sop d) d.s (.th t) with
-    | some s' => srun fuel { d with s := s' } t
+    if ((reg d t).th t).pc ≥ 5 then d else
+    match Hv.Lin.step (scfg d t) (sop d) (reg d t) (.th t) with
+    | some s' => srun fuel (setReg d t s') t
     | none => d
 
 def sstatus (d : DSt) (kind : String) (t : Nat) : String :=
-  let loc := (d.s.th t).loc
+  let loc := ((reg d t).th t).loc
   match kind with
   | "seta" => if loc == 0 then "WROTE" else "UNCHANGED"
   | "setx" => if loc == 0 then "NOT_FOUND" else "WROTE"
+  | "pinc" => if loc == 0 then "CREATED" else "PATCHED"
   | _ => if loc == 0 then "NOT_FOUND" else "DELETED"
 
 /-- the log no longer replays as a sequential history: some response is not what the Spec returns there -/
 def sflag (d : DSt) : String :=
-  if (Hv.Lin.replay (sop d) 0 d.s.log).isNone then "\t#F:C09-read-outside-guard" else ""
+  if (Hv.Lin.replay (sop d) 0 d.s.log).isNone || (Hv.Lin.replay (sop d) 0 d.sp.log).isNone then "\t#F:C09-read-outside-guard" else ""
+
+def ssync (d : DSt) (kind : String) (a : Int) : DSt × String :=
+  let t := d.snext
+  let d1 := srun 8 { d with sops := d.sops ++ [(t, kind, a)], snext := t + 1 } t
+  (d1, s!"{kind} {sstatus d1 kind t}" ++ sflag d1)
 
 def sstep (d : DSt) (ws : List String) : DSt × String :=
   match ws with
@@ -175,22 +195,27 @@ def sstep (d : DSt) (ws : List String) : DSt × String :=
     match d.sparked.find? (fun e => e.1 == n) with
     | none => (d, "bad-op")
     | some (_, t) =>
-      let kind := ((d.sops.find? (fun e => e.1 == t)).map (fun e => e.2.1)).getD ""
       let d1 := srun 8 { d with sparked := d.sparked.filter (fun e => e.1 != n) } t
-      (d1, s!"{n} done {sstatus d1 kind t}" ++ sflag d1)
+      (d1, s!"{n} done {sstatus d1 (kindOf d t) t}" ++ sflag d1)
+  | ["del"] => ssync d "del" 0
+  | ["pdel"] => ssync d "pdel" 0
+  | ["pinc"] => ssync d "pinc" 0
+  | ["get"] => (d, if d.s.val == 0 then "get v=absent" else s!"get v={d.s.val}")
+  | ["pget"] => (d, if d.sp.val == 0 then "pget n=absent" else s!"pget n={d.sp.val}")
   | [kind, v] =>
     if kind != "seta" && kind != "setx" then (d, "bad-op") else
     match v.toInt? with
     | none => (d, "bad-op")
-    | some a =>
-      let t := d.snext
-      let d1 := srun 8 { d with sops := d.sops ++ [(t, kind, a)], snext := t + 1 } t
-      (d1, s!"{kind} {sstatus d1 kind t}" ++ sflag d1)
-  | ["del"] =>
-    let t := d.snext
-    let d1 := srun 8 { d with sops := d.sops ++ [(t, "del", 0)], snext := t + 1 } t
-    (d1, s!"del {sstatus d1 "del" t}" ++ sflag d1)
-  | ["get"] => (d, if d.s.val == 0 then "get v=absent" else s!"get v={d.s.val}")
+    | some a => ssync d kind a
+  | ["spawn", n, "pinc"] =>
+    match tidOf n with
+    | some t =>
+      if d.sops.any (fun e => e.1 == t) then (d, "bad-op") else
+      let d0 := { d with sops := d.sops ++ [(t, "pinc", 0)] }
+      -- parked after the fetch: with the defective shape a call that found no record has already decided "new"
+      let d1 := if !d.patchGuarded && d.sp.val == 0 then srun 1 { d0 with searly := d0.searly ++ [t] } t else d0
+      ({ d1 with sparked := d1.sparked ++ [(n, t)] }, s!"{n}@fetched")
+    | none => (d, "bad-op")
   | ["spawn", n, kind, v] =>
     match tidOf n, v.toInt? with
     | some t, some a =>
@@ -203,7 +228,7 @@ def sstep (d : DSt) (ws : List String) : DSt × String :=
         (d1, s!"{n} done {sstatus d1 kind t}" ++ sflag d1)
       else
         -- otherwise the call parks after the tests; with the defective shape its decision is already taken
-        let d1 := if d.setUnderGuard then d0 else srun 1 d0 t
+        let d1 := if d.setUnderGuard then d0 else srun 1 { d0 with searly := d0.searly ++ [t] } t
         ({ d1 with sparked := d1.sparked ++ [(n, t)] }, s!"{n}@tested")
     | _, _ => (d, "bad-op")
   | _ => (d, "bad-op")
@@ -212,7 +237,8 @@ def step (d : DSt) (line : String) : DSt × String :=
   match words line with
   | ["case", _, mode, kind] =>
     ({ d with mode := mode, kind := kind, s := Hv.Lin.init (if mode == "setx" then 0 else 5), ths := [], deleted := false,
-              resurrected := false, cleared := false, fresh := false, sops := [], sparked := [], snext := 10 }, line)
+              resurrected := false, cleared := false, fresh := false, sops := [], sparked := [], snext := 10,
+              sp := Hv.Lin.init 0, searly := [] }, line)
   | ws =>
     if d.mode == "setx" then sstep d ws else
     if d.mode == "sched" then
@@ -259,7 +285,8 @@ def run (args : List String) : IO UInt32 := do
   lineLoop step { resets := arg kv "resetsIdOnEmpty" == "yes", relWhenImm := arg kv "releasesGuardWhenImmediate" != "no",
                   mode := "", kind := "", s := Hv.Lin.init 5, ths := [], deleted := false, resurrected := false,
                   cleared := false, recheck := arg kv "rechecksObjectUnderGuard" == "yes", fresh := false,
-                  setUnderGuard := arg kv "setTestsExistenceUnderGuard" != "no" }
+                  setUnderGuard := arg kv "setTestsExistenceUnderGuard" != "no",
+                  patchGuarded := arg kv "bodyShape" != "readBeforeAcquire" }
   return 0
 
 end Driver.C09
